@@ -17,7 +17,7 @@ from ref import linre
 
 PROPERTY = "C07"
 LEVEL = "exploration"
-RULE = ("models x every exactly identified plan with 1 or 2 (variable,date) targets and as many (shock,date) instruments over "
+RULE = ("models x every exactly identified plan with 1 or 2 (thorough: 3 for models with <= 2 variables) (variable,date) targets and as many (shock,date) instruments over "
         "dates 1..3 (unanticipated: same date; anticipated: instrument date <= target date, any date for models with leads) "
         "x target source (arbitrary values | taken from an ordinary simulation); plans whose impact matrix "
         "(from unplanned unit simulations) has condition number > 1e6 are excluded; distinct non-trivial = (model, plan, source, method)")
@@ -74,8 +74,9 @@ def arr(db, name, lo=-2, hi=N - 1):
     return a
 
 
-def plans_for(spec):
-    """all plans: list of (mode, [(var j, date)], [(kind 'u'|'a', shock i, date)])"""
+def plans_for(spec, tier="quick"):
+    """all plans: list of (mode, [(var j, date)], [(kind 'u'|'a', shock i, date)]); thorough adds every plan with three
+    swaps for models with at most two variables"""
     n = spec.n
     has_leads = spec.max_lead() > 0
     singles_u = [(("v", j, d), ("u", i, d)) for j in range(n) for i in range(n) for d in DATES]
@@ -92,6 +93,11 @@ def plans_for(spec):
     for a, b in itertools.combinations(singles_a, 2):
         if a[0] != b[0] and a[1] != b[1]:
             out.append(("anticipated", [a[0], b[0]], [a[1], b[1]]))
+    if tier != "quick" and n <= 2:
+        for group, mode in ((singles_u, "unanticipated"), (singles_a, "anticipated")):
+            for a, b, c in itertools.combinations(group, 3):
+                if len({a[0], b[0], c[0]}) == 3 and len({a[1], b[1], c[1]}) == 3:
+                    out.append((mode, [a[0], b[0], c[0]], [a[1], b[1], c[1]]))
     # plans mixing unanticipated and anticipated swaps are not enumerated: the statement speaks of anticipated or
     # unanticipated mode, and with several information sets "exactly identified" is no longer decided by one impact matrix
     return out
@@ -329,7 +335,7 @@ def check_variants(spec, m, plan_desc, res, bad, methods):
 def shard(item, res, ctx):
     spec = linre.LinSpec.from_json(item["spec"])
     m = build(spec)
-    plans = plans_for(spec)
+    plans = plans_for(spec, ctx.tier)
     for k in range(item["lo"], min(item["hi"], len(plans))):
         p = plans[k]
         methods = ("first_order", "stacked_time") if (len(p[1]) == 1 or not ctx.quick) else ("first_order",)
@@ -347,7 +353,7 @@ def run(ctx, total, info):
     shards = []
     n_plans = 0
     for spec in models(ctx.tier):
-        P = len(plans_for(spec))
+        P = len(plans_for(spec, ctx.tier))
         n_plans += P
         step = 40
         for lo in range(0, P, step):
@@ -355,7 +361,7 @@ def run(ctx, total, info):
     engine.run_shards(__name__, "shard", shards, ctx, total)
     info["plans_enumerated"] = n_plans
     info["exhaustive"] = True
-    info["bound_completed"] = 2
+    info["bound_completed"] = 2 if ctx.quick else 3
     c = total.counters
     info["floors"] = {"plans": (len(total.nontrivial), 1500), "mode_k_classes": (len(total.classes.get("mode_k", ())), 4),
                       "stacked_time_successes": (c.get("planned_simulations_stacked_time", 0), 100),
